@@ -178,6 +178,12 @@ func NodePath(n Node) string {
 // similar to an XPath but currently has no wildcarding.  For example:
 // "/if:interfaces/if:interface" and "../config".
 func FindNode(n Node, path string) (Node, error) {
+	return findNode(n, path, map[Node]bool{})
+}
+
+// findNode is FindNode with the set of uses statements that are being
+// expanded by the callers (see childNode).
+func findNode(n Node, path string, expanding map[Node]bool) (Node, error) {
 	if path == "" {
 		return n, nil
 	}
@@ -263,7 +269,7 @@ func FindNode(n Node, path string) (Node, error) {
 		// For now just strip off any prefix
 		// TODO(borman): fix this
 		_, spart := getPrefix(part)
-		n = ChildNode(n, spart)
+		n = childNode(n, spart, expanding)
 		if n == nil {
 			return nil, fmt.Errorf("%s: no such element", part)
 		}
@@ -276,6 +282,15 @@ func FindNode(n Node, path string) (Node, error) {
 // n as well as every node in all slices of Node pointers.  Names must
 // be non-ambiguous, otherwise ChildNode has a non-deterministic result.
 func ChildNode(n Node, name string) Node {
+	return childNode(n, name, map[Node]bool{})
+}
+
+// childNode is ChildNode with the set of uses statements that are being
+// expanded: looking into the grouping of a uses statement can lead back to
+// the same statement (a grouping that uses itself, a uses at the top level of
+// a module whose grouping cannot be found), which must end the search instead
+// of recursing for ever.
+func childNode(n Node, name string, expanding map[Node]bool) Node {
 	v := reflect.ValueOf(n).Elem()
 	t := v.Type()
 	nf := t.NumField()
@@ -307,13 +322,18 @@ Loop:
 		}
 		if parts[0] == "uses" {
 			check = func(n Node) Node {
+				if expanding[n] {
+					return nil
+				}
+				expanding[n] = true
+				defer delete(expanding, n)
 				uname := n.NName()
 				// unrooted uses are rooted at root
 				if !strings.HasPrefix(uname, "/") {
 					uname = "/" + uname
 				}
-				if n, _ = FindNode(n, uname); n != nil {
-					return ChildNode(n, name)
+				if n, _ = findNode(n, uname, expanding); n != nil {
+					return childNode(n, name, expanding)
 				}
 				return nil
 			}
